@@ -337,11 +337,11 @@ def observe(m):
 
 def obs_term(o):
     zz = lambda p: tup(zraw(p[0]), zraw(p[1]))
-    return ('(mkObs ' + lst([f'({zraw(n)}, ({zraw(z)}, {zraw(c)}, {b(r)}))' for n, z, c, r in o['atoms']]) + ' ' +
+    return ('\x02(mkObs ' + lst([f'({zraw(n)}, ({zraw(z)}, {zraw(c)}, {b(r)}))' for n, z, c, r in o['atoms']]) + ' ' +
             lst([tup(zraw(n), lst(row, zz)) for n, row in o['adj']]) + ' ' + lst(o['keys']) + ' ' +
             tup(zraw(o['changed'][0]), lst(o['changed'][1], zraw)) + ' ' + zraw(o['backup']) + ' ' + opt(o['name'], zraw) + ' ' +
             opt(o['meta'], lambda d: lst(d, zz)) + ' ' + lst(o['unlabelled'], zz) + ' ' + lst(o['stale_h'], zraw) + ' ' +
-            lst(o['stale_lab'], zraw) + ' ' + lst(o['stale_keys']) + ')')
+            lst(o['stale_lab'], zraw) + ' ' + lst(o['stale_keys']) + ')\x03')
 
 
 def identity_partition(world):
@@ -520,11 +520,12 @@ def exhaustive_sequences(ck, si, alphabet, depth, depth_extra):
     pool = alphabet + EXTRA
     if depth_extra >= 1:
         seqs += [(e,) for e in EXTRA]
+    quick = ck.tier == 'quick'
     if depth_extra >= 2:
-        seqs += [(a, e) for a in pool for e in EXTRA] + [(e, a) for e in EXTRA for a in alphabet]
+        seqs += [(a, e) for a in (alphabet if quick else pool) for e in EXTRA] + [(e, a) for e in EXTRA for a in alphabet]
     if depth_extra >= 3:
         rng = random.Random(f'{ck.seed}:c13x:{si}')
-        seqs += [tuple(rng.choice(pool) for _ in range(3)) for _ in range(1500)]
+        seqs += [tuple(rng.choice(pool) for _ in range(3)) for _ in range(300 if quick else 3000)]
     return list(dict.fromkeys(seqs))
 
 
@@ -577,8 +578,17 @@ def explore_exhaustive(cr, depth, depth_extra, do_search=True):
 
 
 def corr_run(cr, name='c13', shard=300):
-    extra = 'Import ListNotations.\nOpen Scope Z_scope.\n' + '\n'.join(cr.seed_defs)
-    return coqcases.run_cases(name, 'Cache', cr.cases, extra=extra, shard=shard)
+    """observation terms that occur often (a molecule untouched by a history) are defined once and named: elaborating the
+    list literal of cases, not evaluating it, is what takes the time"""
+    import re
+    from collections import Counter
+    pat = re.compile('\x02(.*?)\x03', re.S)
+    cnt = Counter(m for c in cr.cases for m in pat.findall(c))
+    names = {t: f'ob{i}' for i, (t, n) in enumerate(cnt.most_common(400)) if n >= 6}
+    cases = [pat.sub(lambda m: names.get(m.group(1), m.group(1)), c) for c in cr.cases]
+    defs = [f'Definition {nm} := {t}.' for t, nm in names.items()]
+    extra = 'Import ListNotations.\nOpen Scope Z_scope.\n' + '\n'.join(cr.seed_defs + defs)
+    return coqcases.run_cases(name, 'Cache', cases, extra=extra, shard=shard)
 
 
 # ---- random long sequences on corpus molecules
@@ -1129,7 +1139,7 @@ def run(ck):
         'fix_stereo is modelled only through its cache effect; stereo labels after edits, ring marks (_in_ring/_ring_sizes) and reaction '
         'containers are covered by the search only']
     ck.extra['rule'] = ('correspondence: every sequence over a 12-operation alphabet up to length 3 (thorough: 4) on 3 seed molecules, plus a pool of 38 '
-                        'malformed / remaining operations at depth 1-2 and sampled at depth 3, plus random state-aware sequences (about 12% malformed '
+                        'malformed / remaining operations at depth 1-2 (quick: paired with the alphabet; thorough: with each other too) and sampled at depth 3 (300 / 3000 per seed), plus random state-aware sequences (about 12% malformed '
                         'arguments) on Kekule forms of corpus molecules compared after every step; every case is a distinct history and is '
                         'non-trivial (it compares atoms, bonds, cached keys, _changed, _backup, staleness, identity partition). search: the same runs, '
                         'compared with a molecule rebuilt from scratch after every history (random: after every step), plus stereo seeds and reactions')
@@ -1160,9 +1170,9 @@ def run(ck):
     ck.oblige('atom objects are never shared between live molecules (justifies by-value atoms in the model)', not shared, 'correspondence',
               repr(shared[:3]))
     ck.extra['correspondence_cases'] = len(cr.cases) + len(cr2.cases)
-    ck.sample({'model_call': cr.cases[len(cr.cases) // 2][:1500], 'meta': repr(cr.meta[len(cr.meta) // 2])})
+    ck.sample({'model_call': cr.cases[len(cr.cases) // 2][:1500].replace('\x02', '').replace('\x03', ''), 'meta': repr(cr.meta[len(cr.meta) // 2])})
     if cr2.cases:
-        ck.sample({'model_call': cr2.cases[0][:1500], 'meta': repr(cr2.meta[0])[:600]})
+        ck.sample({'model_call': cr2.cases[0][:1500].replace('\x02', '').replace('\x03', ''), 'meta': repr(cr2.meta[0])[:600]})
     if not ok or bad:
         ck.unchecked('correspondence Cache model vs chython MoleculeContainer', (log1 + log2)[-1500:], [repr(x)[:600] for x in bad[:20]])
     if shared:
